@@ -1,0 +1,20 @@
+//go:build verif
+
+// Further contracts for C23 (added after a seeded change that sized each connection's record limit from the
+// transfer size in force when the connection was accepted was not detected): the limit a record-marking connection
+// accepts is the package-wide 1 MiB, for the whole life of the connection, so a WRITE of the advertised maximum
+// (at most 1 MiB - 4 KiB, proved for handleFsinfo) always fits one record together with its RPC header and
+// arguments. Comment-only file.
+package absnfs
+
+// the connection loop is started with a reader whose record limit is the package default
+//@ also Server.handleConnectionWithRecordMarking
+//@ callassert Server.handleConnectionLoop : [record-limit-is-default] {C23} cio != nil && cio.rmConn != nil && cio.rmConn.reader != nil && cio.rmConn.reader.MaxRecordSize == 1048576
+// and nobody changes a reader's limit after its constructor
+//@ writers [record-limit-writers] C23 : RecordMarkingReader.MaxRecordSize : NewRecordMarkingReader
+// what FSINFO may advertise (advMax, for every configured transfer size) leaves 4 KiB of the record for the RPC
+// header (at most 400-byte credential and verifier bodies) and the WRITE arguments
+//@ lemma advertised_write_fits_record
+//@ prop C23
+//@ var ts mathint
+//@ concl [fits] advMax(ts) + 4096 <= 1048576 && advMax(ts) >= 1 - ite(ts > 0, 0, 0)
